@@ -8,6 +8,7 @@ transition log of every real tube is a path of this model (event by event).
 -/
 import HopModel.Model.Fin
 import HopModel.Proofs.StopSteps
+import HopModel.Generated.Shapes
 namespace Fin
 
 /-! ### safety: only legal transitions, closed is absorbing -/
@@ -357,3 +358,54 @@ example : ∃ s', Run (init 1 false) 10 s' ∧ s'.owner = .done :=
       (Run.cons (Step.ownerDone _ rfl rfl) (Run.nil _)))))))))), rfl⟩
 
 end StopSteps
+
+/-! ### ties to the order of statements in tubes/reliable.go and tubes/unreliable.go
+
+`Model/StopSteps.lean` lets the send goroutine of a tube hand frames to the sender's queues only
+while the sender is not closed, and lets every way out of an initiation goroutine that starts no
+sender release whoever waits for the sender.  Both are facts about where a check or a `close`
+stands relative to a lock or a `return`; the translator regenerates the statement shapes on every
+run (`Generated/Shapes.lean`) and these obligations read them off.  (The races themselves are also
+provoked on the running code: the delay-spike batch and the `nu`/`nr` operations of suite C16.) -/
+namespace ShutdownShapes
+open Shape
+
+/-- `Reliable.send`: the sender's closed flag is looked at *under the lifecycle lock* - every
+`if r.sender.closed.Load()` directly follows `r.l.Lock()` - in the retransmission case and in the
+window case (at least those two) -/
+def closedCheckedUnderLock (sh : List Item) : Bool :=
+  decide (2 ≤ (positions sh (fun it => it.kind == "if" && it.text == "r.sender.closed.Load()")).length) &&
+  eachPrecededBy sh (fun it => it.kind == "if" && it.text == "r.sender.closed.Load()")
+    (fun _ prev => prev.kind == "call" && prev.text == "r.l.Lock()")
+
+/-- … and a frame goes into the sender's queue only in a `select` case that made that check: between
+the send and the `case` header before it stands a closed check -/
+def queueSendsAfterCheck (sh : List Item) : Bool :=
+  (positions sh (fun it => it.kind == "send" && it.text == "r.sender.sendQueue <- windowFrame.frame")).all fun i =>
+    match ((List.range i).filter fun j => (sh[j]?.map (fun it => it.kind == "case" && it.depth == 1)).getD false).getLast? with
+    | some c => ((List.range i).drop (c + 1)).any fun j =>
+        (sh[j]?.map (fun it => it.kind == "if" && it.text == "r.sender.closed.Load()")).getD false
+    | none => false
+
+/-- `Reliable.initiate`: the sender is marked running only on the path that starts its goroutine:
+`r.sender.closed.Store(false)` directly precedes `go r.send`, after the state check that returns -/
+def senderMarkedRunningOnlyWhenStarted (sh : List Item) : Bool :=
+  (positions sh (fun it => it.head == "r.sender.closed.Store")).length == 1 &&
+  eachFollowedBy sh (fun it => it.head == "r.sender.closed.Store") (fun n => n == ⟨0, "go", "", "r.send"⟩) &&
+  (match find sh (· == ⟨0, "if", "", "r.tubeState != initiated"⟩), find sh (fun it => it.head == "r.sender.closed.Store") with
+   | some i, some j => decide (i < j) && sh[i + 2]? == some ⟨1, "return", "", ""⟩
+   | _, _ => false)
+
+/-- `Unreliable.initiate`: every `return` of the initiation loop (the paths that start no sender)
+is directly preceded by `close(u.senderDone)`; the only other way out starts the sender -/
+def everyExitReleasesSenderWaiters (sh : List Item) : Bool :=
+  decide (2 ≤ (positions sh (fun it => it.kind == "return")).length) &&
+  eachPrecededBy sh (fun it => it.kind == "return") (fun _ prev => prev == ⟨prev.depth, "call", "close", "close(u.senderDone)"⟩) &&
+  sh.getLast? == some ⟨0, "go", "", "u.sender"⟩
+
+example : closedCheckedUnderLock Generated.shape_tubes_Reliable_send = true := by decide
+example : queueSendsAfterCheck Generated.shape_tubes_Reliable_send = true := by decide
+example : senderMarkedRunningOnlyWhenStarted Generated.shape_tubes_Reliable_initiate = true := by decide
+example : everyExitReleasesSenderWaiters Generated.shape_tubes_Unreliable_initiate = true := by decide
+
+end ShutdownShapes
